@@ -435,6 +435,18 @@ func runBounds(c *core.Ctx) {
 		b := &boundsCtx{c: c, fn: fn}
 		n := 0
 		name := kn(c.P.FuncName(fn))
+		// "taglist": the handler that marshals a tag list
+		isTagList := false
+		an.Instrs(fn, func(in ssa.Instruction) {
+			if al, ok := in.(*ssa.Alloc); ok && isNamedType(an.Deref(al.Type()), c.P.Module+"/types", "TagList") {
+				isTagList = true
+			}
+		})
+		if isTagList {
+			c.SetTags("taglist")
+		} else {
+			c.SetTags("other")
+		}
 		an.Instrs(fn, func(in ssa.Instruction) {
 			switch x := in.(type) {
 			case *ssa.Slice:
